@@ -71,6 +71,11 @@ def check_impl(fn, args, out):
         # acceptance set is C06; here: only Ok or ValueError, and the documented size / PAN guards
         if out[0] == "ERR" and out[1] != "ValueError":
             return {"what": "decoder raised another exception type", "expected": "Ok or ValueError", "observed": list(out)}
+        want = {"decode_pinblock_iso_0": 8, "decode_pinblock_iso_2": 8, "decode_pinblock_iso_3": 8,
+                "decode_pin_field_iso_4": 16, "decipher_pinblock_iso_4": 16}[fn]
+        blk = args[1] if fn == "decipher_pinblock_iso_4" else args[0]
+        if len(blk) != want and out[0] == "OK":
+            return {"what": "a block of the wrong size was decoded", "expected": "ValueError", "observed": list(out)}
         return None
     d = dom(fn, args)
     if d and out[0] != "OK":
@@ -190,6 +195,18 @@ def run(ctx):
         rand_cases.append(("encipher_pinblock_iso_4", (rng.randbytes(24), pin, v)))
     for n in range(0, 41):
         rand_cases.append(("encipher_pinblock_iso_4", (rng.randbytes(n), pin, pan4)))
+    # a genuine format 4 block followed by further whole blocks (or cut short) is still a wrong-size block
+    from psec import pinblock as _pb
+    for ks in (16, 24, 32):
+        k_ = rng.randbytes(ks)
+        g_ = _pb.encipher_pinblock_iso_4(k_, pin, pan4)
+        for blk in (g_ + rng.randbytes(16), g_ + g_, g_ + bytes(32), g_[:8], g_ + b"\x00", b""):
+            cases.append(("decipher_pinblock_iso_4", (k_, blk, pan4)))
+    g0 = _pb.encode_pinblock_iso_0(pin, pan)
+    for blk in (g0 + g0, g0 + b"\x00", g0[:7], g0 + rng.randbytes(8)):
+        cases.append(("decode_pinblock_iso_0", (blk, pan)))
+        cases.append(("decode_pinblock_iso_3", (blk, pan)))
+        cases.append(("decode_pinblock_iso_2", (blk,)))
     # negative numbers are outside the model's typed domain (N): keep them impl-only
     impl_only = [c for c in cases if any(isinstance(x, int) and not isinstance(x, bool) and x < 0 for x in c[1])
                  and c[0] != "apply_key_variant"]
